@@ -890,10 +890,7 @@ func (e *engine) hostileTypes() {
 
 // mutations1: one seeded mutation of a valid encoding.
 func mutations1(valid []byte, rng *rand.Rand, tag string, k int) hostile {
-	hs := mutations(valid, 1, rng, tag)
-	h := hs[len(hs)-1]
-	h.note = tag + "mut#" + itoa(k)
-	return h
+	return hostile{mutate(valid, rng), tag + "mut#" + itoa(k)}
 }
 
 // ---------------------------------------------------------------------------
@@ -993,13 +990,19 @@ func main() {
 		res = r.RunChild(mon.ChildSpec{Label: "booted", Args: []string{"booted"}, Timeout: time.Duration(r.Pick(10, 60)) * time.Minute})
 	}()
 
+	t0 := time.Now()
 	e.roundTrips()
+	t1 := time.Now()
 	restore := silence()
 	e.hostileTypes()
+	t2 := time.Now()
 	e.reportPanics()
 	restore()
 	e.flush()
+	t3 := time.Now()
 	wg.Wait()
+	r.Note("timing (informative): round trips %.1fs, hostile bytes %.1fs, shrinking %.1fs, waiting for the booted child %.1fs (child wall %.1fs)",
+		t1.Sub(t0).Seconds(), t2.Sub(t1).Seconds(), t3.Sub(t2).Seconds(), time.Since(t3).Seconds(), res.Wall.Seconds())
 	r.Absorb(res, "C09:booted")
 	if r.Get("booted_child_finished") == 0 {
 		r.Note("booted child did not finish: exit=%d log tail: %s", res.Exit, tail(res.LogTail, 1500))
